@@ -564,6 +564,13 @@ class C18(Machine):
             if os.path.exists(lp):
                 shutil.copy(lp, os.path.join(root, 'pre_' +
                                              inv['args']['load']))
+        # the field files of a file-based simulation are durable state too
+        import shutil
+        fdir = os.path.join(root, 'fdir')
+        fpre = os.path.join(ctx.scratch, 'fdir_pre')
+        shutil.rmtree(fpre, ignore_errors=True)
+        if os.path.isdir(fdir):
+            shutil.copytree(fdir, fpre)
         # ---- the CLI run
         ctx.rng_counts = {}
         ctx.pool.new_op(())
@@ -589,10 +596,24 @@ class C18(Machine):
             ctx.stats.probe('rejected/' + bad['kind'])
             ctx.event('cli', {'bad': bad['kind'], 'exc': got[1]})
             return
-        # ---- the API twin (same RNG stream, same pool policy)
+        # ---- the API twin (same RNG stream, same pool policy), starting
+        # from the field files as they were before the CLI ran
         ctx.rng_counts = {}
-        with simpool.installed(ctx.pool, 'tqdm', False):
-            want = _outcome(lambda: self._twin(ctx, st, inv, twin, right))
+        fcli = os.path.join(ctx.scratch, 'fdir_cli')
+        shutil.rmtree(fcli, ignore_errors=True)
+        if os.path.isdir(fdir):
+            shutil.move(fdir, fcli)
+        if os.path.isdir(fpre):
+            shutil.copytree(fpre, fdir)
+        try:
+            with simpool.installed(ctx.pool, 'tqdm', False):
+                want = _outcome(lambda: self._twin(ctx, st, inv, twin,
+                                                   right))
+        finally:
+            # the session continues from what the CLI left behind
+            shutil.rmtree(fdir, ignore_errors=True)
+            if os.path.isdir(fcli):
+                shutil.move(fcli, fdir)
         if got[0] == 'exc' or want[0] == 'exc':
             if got[0] == 'exc' and want[0] == 'ok':
                 key = self._blame(inv, got)
